@@ -90,6 +90,8 @@ def _render(g, order=0):
             out.append("%slet x = %d;" % ("pub " if g["x"][m] == "pub" else "", XV[m]))
         if m == "c" and not bare and g.get("y", "none") != "none":
             out.append("%slet y = 77;" % ("pub " if g["y"] == "pub" else ""))
+        if g.get("tval") and m in ("main", "b"):
+            out.append("let T = %d;" % (11 if m == "main" else 55))
         if m == "b" and g["t"] != "none":
             out.append("%stype T = int;" % ("pub " if g["t"] == "pub" else ""))
         if not bare:
@@ -110,6 +112,8 @@ def _render(g, order=0):
             sees_y = "println(\"b.y\", y); " if m == "b" and any(it[0] == "y" for it in imports(g, m)) else ""
             if host != "none":
                 sees_y += "println(\"%s.tag\", tag()); " % m
+            if m == "b" and g.get("tval"):
+                sees_y += "println(\"b.T\", T); "
             out.append("pub fn p%s() { println(\"%s.p\", x, hist.len()); %s%s%sh(); }" % (m, m, sees_y, "f(); " if sees_f else "", other))
             # a library's own main (pub when its x is pub) is never run: only the entry module's main is
             out.append("%sfn main() { println(\"%s.main\"); }" % ("pub " if g["x"][m] == "pub" else "", m))
@@ -127,6 +131,8 @@ def _render(g, order=0):
                 body.append("println(\"main.y\", y);")
             if host != "none":
                 body.append("println(\"main.tag\", tag());")
+            if g.get("tval"):
+                body.append("println(\"main.T\", T);")
             if sees_f:
                 body.append("f();")
             if any(it[0] == "T" for it in imports(g, m)):
@@ -143,6 +149,8 @@ def expected_text(out):
             ls.append("c.p bare")
         elif l[1] == "h":
             ls.append("%s.h" % l[0])
+        elif l[1] == "T":
+            ls.append("%s.T %d" % (l[0], l[2]))
         elif l[1] == "tag":
             ls.append("%s.tag %s" % (l[0], l[2]))
         elif l[1] == "y":
